@@ -3,10 +3,11 @@
    Layers: F = documented format (Format.v), S = abstract spec (Spec/SpecStep), I = model of the Rust (World.step'). *)
 From Coq Require Import List NArith Bool Arith Sorted.
 From Coq Require Import Strings.Byte.
-Require Import BS.Bytes BS.Common BS.Api BS.Layout BS.Format BS.FormatFacts.
+Require Import BS.Bytes BS.Common BS.Api BS.Layout BS.Format BS.FormatFacts BS.Spec BS.SpecStep.
+Require Import BS.FS BS.FSFacts BS.Meta BS.MetaFacts BS.Header BS.Reader BS.ReaderFacts BS.Index BS.Data BS.DataFacts BS.Seek BS.Series BS.SeriesFacts.
 Import ListNotations.
 
-(* a section is emitted exactly for the first line and when the distance to the last full
+(* (F) a section is emitted exactly for the first line and when the distance to the last full
    timestamp exceeds 65534; every other line costs p+2 bytes *)
 Theorem C15_encode_rule : forall (p:nat) (full:option N) (x:line), length (snd x) = p ->
   match full with
@@ -18,8 +19,26 @@ Theorem C15_encode_rule : forall (p:nat) (full:option N) (x:line), length (snd x
 Proof. exact tail_bytes_rule. Qed.
 Print Assumptions C15_encode_rule.
 
-(* the data region is a function of the accepted lines, built one append at a time *)
+(* (F) the data region is a function of the accepted lines, built one append at a time *)
 Theorem C15_append : forall (p:nat) (l:list line) (x:line),
   encode p (l ++ [x]) = encode p l ++ fst (tail_bytes p (full_after p None l) x).
 Proof. exact encode_snoc. Qed.
 Print Assumptions C15_append.
+
+(* (I) Data::push_data appends exactly those bytes (meta::write = the documented section for every
+   payload size), keeps the index equal to the sections of the data, touches nothing else *)
+Theorem C15_push_data_writes_reference_bytes : forall fs d p hdr ihdr region full last ts pay,
+  RepD fs d p hdr ihdr region full last -> line_ok p full (ts, pay) ->
+  let tb := tail_bytes p full (ts, pay) in
+  exists fs' d',
+    push_data d ts pay fs = (fs', Ok d')
+    /\ RepD fs' d' p hdr ihdr (region ++ fst tb) (snd tb) (Some ts)
+    /\ (forall g, g <> of_name (d_file d) -> g <> of_name (ix_file (d_index d)) -> fs_get fs' g = fs_get fs g)
+    /\ of_name (d_file d') = of_name (d_file d) /\ of_name (ix_file (d_index d')) = of_name (ix_file (d_index d)).
+Proof. exact push_data_ok. Qed.
+Print Assumptions C15_push_data_writes_reference_bytes.
+
+Theorem C15_meta_write_is_documented_section : forall p t, meta_write p (le_enc 8 t) = enc_section p t.
+Proof. exact meta_write_is_section. Qed.
+Print Assumptions C15_meta_write_is_documented_section.
+(* partial: independence from interleaved reopens and repairs needs the open theorem (C04/C05). *)
